@@ -58,6 +58,12 @@ theorem witness_empty_object :
     parseKV (defaultCfg ['='] [' ']) (encodeKV ['='] [' '] []) = .err ∧
     objectClass ['='] [' '] [] = some .emptyObject := by decide
 
+/-- `kv:D_delimiters` — with a space as key-value delimiter (default lenient whitespace) `k v` is
+    read as the standalone key `k`. -/
+theorem witness_space_delimiter :
+    parseKV (defaultCfg [' '] [',']) (encodeKV [' '] [','] [(['k'], ['v'])]) = .ok [(['k'], .tru)] ∧
+    objectClass [' '] [','] [(['k'], ['v'])] = some .delimiters := by decide
+
 /-- the logfmt pair shows the same behaviour (it is the `=` / space instance). -/
 theorem witness_logfmt_backslash :
     parseLogfmt (encodeLogfmt [(['k'], ['a', '\\', 'b'])])
@@ -113,10 +119,10 @@ example :
     let o : List (List Char × List Char) :=
       [(['a', ' ', 'b'], ['x', ' ', '"', 'y', '"', ' ', '=', ' ', '\\', 'z']),
        (['k'], ['v', 'é', '\'', '日'])]
-    delimOK '=' ' ' = true ∧ keysSorted o = true ∧ safeObject '=' ' ' o = true ∧
+    delimOK '=' = true ∧ keysSorted o = true ∧ safeObject '=' ' ' o = true ∧
     parseLogfmt (encodeLogfmt o) = .ok (expected o) := by decide
 
-example : delimOK ':' ',' = true ∧ safeObject ':' ',' [(['k'], ['a', '=', ':', 'b'])] = true := by
+example : delimOK ':' = true ∧ safeObject ':' ',' [(['k'], ['a', '=', ':', 'b'])] = true := by
   decide
 
 /-- lists with quotes, delimiters, line breaks and empty fields satisfy the hypotheses of
